@@ -123,7 +123,7 @@ class FilReader(Filterbank):
                 "nchans": nchans,
             },
         )
-        return FilterbankBlock(data_block, new_header)
+        return FilterbankBlock(data_block, new_header, dm=self.header.dm)
 
     def read_dedisp_block(self, start: int, nsamps: int, dm: float) -> FilterbankBlock:
         delays = self.header.get_dmdelays(dm)
@@ -316,7 +316,7 @@ class PFITSReader(Filterbank):
         new_header = self.header.new_header(
             {"tstart": start_mjd, "nsamples": nsamps, "fch1": fch1, "nchans": nchans},
         )
-        return FilterbankBlock(data_block, new_header)
+        return FilterbankBlock(data_block, new_header, dm=self.header.dm)
 
     def read_dedisp_block(self, start: int, nsamps: int, dm: float) -> FilterbankBlock:
         msg = "Not implemented for PFITSReader"
